@@ -404,10 +404,18 @@ def catalogue(tier="quick"):
         ("polyphony_ties", ["polyphony", "tie_barline", "tie_cross_voice", "two_staves"]),
         ("two_staves_hairpin_and_words_on_the_lower_staff", ["two_staves", "wedge", "constant_directions_of_three_families", "dynamics"]),
         ("two_voices_repeat_signs_inside_measures", ["two_voices", "repeat_inside_measures"]),
+        ("repeat_sign_where_the_divisions_change_inside_a_measure", ["repeat_inside_measures", "divisions_change_mid"]),
         ("underfilled_measures_in_two_parts_with_a_pickup", ["pickup", "underfilled_measures", "group"]),
     ]
     out += combos
     if tier == "thorough":
+        # pairs of features that put two things where notation has room for one are left out: two metronome marks at one instant, two
+        # sustain-pedal spans that overlap, repeats that cross each other, two separately built groups of grace notes before one note (which of
+        # them comes first is not stated), and a grace chain that ends on a note whose id another note shares
+        clash = {frozenset(x) for x in (("tempo", "tempo_dotted_units"), ("tempo_mid", "tempo_dotted_units"), ("pedal", "pedal_change_inside_a_measure"),
+                                        ("pedal_barline", "pedal_change_inside_a_measure"), ("repeat", "repeat_inside_measures"), ("repeat_inside_measures", "ending"),
+                                        ("grace", "grace_run_below"), ("grace_chain", "grace_run_below"), ("grace_run_below", "duplicate_ids"))}
         for a, b in itertools.combinations(FEATURES, 2):
-            out.append((a + "+" + b, [a, b]))
+            if frozenset((a, b)) not in clash:
+                out.append((a + "+" + b, [a, b]))
     return out
